@@ -614,7 +614,7 @@ def concrete_main():
                 # a concrete job is one scenario run: bound it (a constant choice sequence can drive a rejection-sampling loop forever)
                 import resource
                 import signal
-                lim = int(job.get("limit_s", 180))
+                lim = int(job.get("limit_s", 900))
                 signal.signal(signal.SIGALRM, lambda *_a: (_ for _ in ()).throw(_JobAbort(f"concrete job exceeded {lim}s")))
                 signal.alarm(lim)
                 try:
